@@ -1,5 +1,81 @@
-(** C16 -- placeholder while the proofs are built *)
-From RL Require Import Model.Decode.
-Theorem C16_placeholder : m_decode strict_opts [] = Val (Err [IncompleteFlags], []).
-Proof. reflexivity. Qed.
-Print Assumptions C16_placeholder.
+(** C16 -- Enumerated protocol fields accept exactly their assigned code points,
+    one-to-one, with the RFC 2661 numbers.  Statements are over all of N (hence
+    over all 65536 wire values). *)
+From RL Require Import Model.Decode Spec.SpecDecode Proofs.RefineAvp Proofs.Enums.
+
+Theorem C16_message_type : forall x,
+  is_some (mt_of_code x) = member x [1;2;3;4;6;7;8;9;10;11;12;14;15;16].
+Proof. exact mt_accepts. Qed.
+Theorem C16_error_type : forall x, is_some (et_of_code x) = member x [0;1;2;3;4;5;6;7;8].
+Proof. exact et_accepts. Qed.
+Theorem C16_proxy_authen_type : forall x, is_some (pa_of_code x) = member x [0;1;2;3;4;5].
+Proof. exact pa_accepts. Qed.
+Theorem C16_stop_ccn_code : forall x, is_some (sc_of_code x) = member x [0;1;2;3;4;5;6;7].
+Proof. exact sc_accepts. Qed.
+Theorem C16_cdn_code : forall x, is_some (cd_of_code x) = member x [0;1;2;3;4;5;6;7;8;9;10;11].
+Proof. exact cd_accepts. Qed.
+Theorem C16_attribute_types : forall t,
+  is_some (shape_of t) = ((t <=? 19) || ((21 <=? t) && (t <=? 39))).
+Proof. exact attr_accepts. Qed.
+Theorem C16_dispatch_is_table : forall t,
+  decode_avp t = Ret (Err (UnknownAvp t)) <-> is_some (shape_of t) = false.
+Proof. exact dispatch_unknown_iff. Qed.
+
+(** one-to-one *)
+Theorem C16_mt_bijection : (forall t, mt_of_code (mt_code t) = Some t) /\
+                           (forall x t, mt_of_code x = Some t -> mt_code t = x).
+Proof. exact (conj mt_inv1 mt_inv2). Qed.
+Theorem C16_et_bijection : (forall t, et_of_code (et_code t) = Some t) /\
+                           (forall x t, et_of_code x = Some t -> et_code t = x).
+Proof. exact (conj et_inv1 et_inv2). Qed.
+Theorem C16_pa_bijection : (forall t, pa_of_code (pa_code t) = Some t) /\
+                           (forall x t, pa_of_code x = Some t -> pa_code t = x).
+Proof. exact (conj pa_inv1 pa_inv2). Qed.
+Theorem C16_sc_bijection : (forall t, sc_of_code (sc_code t) = Some t) /\
+                           (forall x t, sc_of_code x = Some t -> sc_code t = x).
+Proof. exact (conj sc_inv1 sc_inv2). Qed.
+Theorem C16_cd_bijection : (forall t, cd_of_code (cd_code t) = Some t) /\
+                           (forall x t, cd_of_code x = Some t -> cd_code t = x).
+Proof. exact (conj cd_inv1 cd_inv2). Qed.
+
+(** RFC 2661 numbers of the named values *)
+Theorem C16_rfc_numbers :
+  map mt_code [StartControlConnectionRequest; StartControlConnectionReply; StartControlConnectionConnected;
+               StopControlConnectionNotification; Hello; OutgoingCallRequest; OutgoingCallReply;
+               OutgoingCallConnected; IncomingCallRequest; IncomingCallReply; IncomingCallConnected;
+               CallDisconnectNotify; WanErrorNotify; SetLinkInfo]
+    = [1;2;3;4;6;7;8;9;10;11;12;14;15;16]
+  /\ map et_code [EtOk; NoControlConnectionExists; WrongLength; OutOfRangeOrBadReserved;
+                  InsufficientResources; InvalidSessionId; Generic; TryAnotherDestination;
+                  UnknownMandatoryAvp] = [0;1;2;3;4;5;6;7;8]
+  /\ map pa_code [PaReserved; TextualUserNamePasswordExchange; PppChap; PppPap; NoAuthentication;
+                  MicrosoftChapVersion1] = [0;1;2;3;4;5]
+  /\ map sc_code [ScReserved; GeneralRequestToClearControlConnection; GeneralError;
+                  ControlChannelAlreadyExists; RequesterNotAuthorizedToEstablishControlChannel;
+                  RequesterProtocolVersionUnsupported; RequesterShutdown; FsmError] = [0;1;2;3;4;5;6;7]
+  /\ map cd_code [CdReserved; CallDisconnectedLossOfCarrier; CallDisconnectedWithErrorCode;
+                  CallDisconnectedAdministrative; CallFailedTemporarilyUnavailable;
+                  CallFailedPermanentlyUnavailable; InvalidDestination; CallFailedNoCarrier;
+                  CallFailedBusySignal; CallFailedNoDialTone; CallEstablishTimeout;
+                  CallNoFramingDetected] = [0;1;2;3;4;5;6;7;8;9;10;11].
+Proof. repeat split; reflexivity. Qed.
+
+(** result codes are kept raw for every 16-bit value and re-encoded unchanged *)
+Theorem C16_result_code_raw : forall p, 2 <= len p -> len p < 4 ->
+  s_payload 1 p = Ok (AResultCode (fld 2 0 p) None).
+Proof.
+  intros p H2 H4. unfold s_payload. cbn [shape_of s_shape].
+  replace (len p <? 2) with false by (symmetry; apply N.ltb_ge; exact H2).
+  replace (len p <? 4) with true by (symmetry; apply N.ltb_lt; exact H4). reflexivity.
+Qed.
+
+Print Assumptions C16_message_type.
+Print Assumptions C16_error_type.
+Print Assumptions C16_proxy_authen_type.
+Print Assumptions C16_stop_ccn_code.
+Print Assumptions C16_cdn_code.
+Print Assumptions C16_attribute_types.
+Print Assumptions C16_dispatch_is_table.
+Print Assumptions C16_mt_bijection.
+Print Assumptions C16_rfc_numbers.
+Print Assumptions C16_result_code_raw.
